@@ -104,6 +104,26 @@ class CallbackFault(TypeError):
     own reasons (awaiting a non-awaitable, binding arguments) is exercised with a user exception of that type."""
 
 
+class CoroProxy(__import__("collections").abc.Coroutine):
+    """A coroutine *object* that is not a native one (instrumentation wrappers, Cython coroutines): asyncio accepts any
+    collections.abc.Coroutine."""
+
+    def __init__(self, inner):
+        self._c = inner
+
+    def send(self, v):
+        return self._c.send(v)
+
+    def throw(self, *a):
+        return self._c.throw(*a)
+
+    def close(self):
+        return self._c.close()
+
+    def __await__(self):
+        return self._c.__await__()
+
+
 class Excluded(Exception):
     """An open known-finding trigger fired: the history is outside the claim while the finding is open."""
 
@@ -379,8 +399,9 @@ class World:
         fn.__qualname__ = name
         return fn
 
-    def callsite(self, req, inner, raising=()):
-        """A 'coroutine function' that raises synchronously when called, for the chosen call indices."""
+    def callsite(self, req, inner, raising=(), proxy=False):
+        """A 'coroutine function' that raises synchronously when called, for the chosen call indices.
+        proxy: its calls return a non-native Coroutine object wrapping the real coroutine."""
         w = self
 
         def fn(*a, **k):
@@ -389,7 +410,7 @@ class World:
             for r in raising:
                 if n == r:
                     raise ValueError("call-site fault %d" % n)
-            return inner(*a, **k)
+            return CoroProxy(inner(*a, **k)) if proxy else inner(*a, **k)
 
         fn.__name__ = inner.__name__
         fn._is_coroutine = asyncio.coroutines._is_coroutine
